@@ -69,6 +69,7 @@ fn main() {
     }
     util::install_quiet_panic_hook();
     let rep = Reporter::new(&prop, tier, list || replay.is_some());
+    let rep = if replay.is_some() { rep.without_ceilings() } else { rep };
     if let Some(path) = replay {
         let text = std::fs::read_to_string(&path).expect("cannot read replay file");
         let doc: serde_json::Value = serde_json::from_str(&text).expect("replay file is not JSON");
